@@ -23,11 +23,11 @@ CLAIMS = {
    note="Uses the same prefix-stability library as C01 (each header parser returns Incomplete with a safe hint on every proper prefix of its own bytes); behind the headers the verdict comes from validated_payload_length whose hint is the exact shortfall.",
    technique="Coq proof (prefix-stability closed under sequencing) + exhaustive-cut correspondence check"),
  "C06": dict(
-   text="c06_search / c06_search_complete / c06_search_some_iff / c06_search_none_iff: forward_to_next_storage_header returns exactly the offset of the FIRST occurrence of DLT\\x01 with the input from there on, and None iff the pattern does not occur; c06_junk: pattern-free junk in front of a storage-header message (>= 16 bytes) does not change the result of dlt_message, for every filter (the pattern is unbordered, so no occurrence straddles the boundary); c06_stream / c06_stream_messages: junk0 ++ m1 ++ junk1 ++ ... is recovered completely and in order by repeated parsing; c06_trailing_junk. Tied to /repo by ops 12/24/29 on pattern-dense strings and junk-separated streams.",
+   text="c06_search / c06_search_complete / c06_search_some_iff / c06_search_none_iff: forward_to_next_storage_header returns exactly the offset of the FIRST occurrence of DLT\\x01 with the input from there on, and None iff the pattern does not occur; c06_junk: pattern-free junk in front of a storage-header message (>= 16 bytes) does not change the result of dlt_message, for every filter (the pattern is unbordered, so no occurrence straddles the boundary); c06_stream / c06_stream_messages: junk0 ++ m1 ++ junk1 ++ ... is recovered completely and in order by repeated parsing; c06_trailing_junk. Tied to /repo by ops 12/24/29 on pattern-dense strings and junk-separated streams. C06b composes these with the round trip: c06b_junk_message (junk ++ serialised well-formed message parses to that message and the same remainder), c06b_stream_recovered and c06b_stream_filtered (a stream of well-formed messages with pattern-free junk between them is recovered completely and in order, with or without a filter).",
    note="memchr::memmem::Finder::find is modelled as naive first-occurrence search; the SIMD implementation is exercised by the correspondence (partial patterns at the junk tail, near misses).",
    technique="Coq proof (first-occurrence search, unbordered-pattern lemma, induction over the stream) + correspondence check"),
  "C09": dict(
-   text="c09_filter: whenever the unfiltered parse returns Item m with remainder rest, the parse with process_filter cfg returns FilteredOut (payload length) rest if spec_dropped cfg m and Item m rest otherwise, where spec_dropped is written from the property sentence (Spec/FilterSpec.v: valid level less severe than a valid minimum, ids not in the raw lists, ECU id present and not allowed; without extended header: counts above the number of DISTINCT ids); c09_filter_only_drops, c09_filter_processed, c09_stream (message for message over repeated parsing), c09_levels (minimum outside 1..6 = no level filtering), c09_conversions (both conversions: membership and distinct count preserved by dedup), c09_invalid_minimum (hand-built Invalid minimum). Composes with c01_roundtrip_filter for serialised messages. Tied to /repo by ops 26/27.",
+   text="c09_filter: whenever the unfiltered parse returns Item m with remainder rest, the parse with process_filter cfg returns FilteredOut (payload length) rest if spec_dropped cfg m and Item m rest otherwise, where spec_dropped is written from the property sentence (Spec/FilterSpec.v: valid level less severe than a valid minimum, ids not in the raw lists, ECU id present and not allowed; without extended header: counts above the number of DISTINCT ids); c09_filter_only_drops, c09_filter_processed, c09_stream (message for message over repeated parsing), c09_levels (minimum outside 1..6 = no level filtering), c09_conversions (both conversions: membership and distinct count preserved by dedup), c09_invalid_minimum (hand-built Invalid minimum). Composes with c01_roundtrip_filter for serialised messages. Tied to /repo by ops 26/27. C09b: c09b_filter_message states the property directly for every well-formed message and trailing bytes (composition with c01_roundtrip).",
    note="Finding recorded in Properties/C09.v: a dropped message's payload is skipped unparsed, so 'filtered = unfiltered' holds where the unfiltered parse succeeds - exactly the property's wording ('message for message').",
    technique="Coq proof (refinement of filtered_out to an independent drop rule) + correspondence check with an independent Rust oracle"),
  "C11": dict(
@@ -79,11 +79,11 @@ CLAIMS = {
    note="The proved reduction c14_ti_low is what justifies comparing the implementation on w with the table at w mod 2^18. HTYP is observed through dlt_message on complete messages.",
    technique="Coq proof: finite sweeps by vm_compute lifted with forallb_forall + bit-level reduction lemma; exhaustive differential sweep"),
  "C19": dict(
-   text="c19_enough / c19_short / c19_consumes / c19_no_panic proved for all sizes and all byte strings over the model of dlt_zero_terminated_string (nom take_while_m_n + take); c19_utf8 proves the salvage returns the longest well-formed prefix against an independent inductive definition of UTF-8 (Unicode table 3-7).",
+   text="c19_enough / c19_short / c19_consumes / c19_no_panic proved for all sizes and all byte strings over the model of dlt_zero_terminated_string (nom take_while_m_n + take); c19_utf8 proves the salvage returns the longest well-formed prefix against an independent inductive definition of UTF-8 (Unicode table 3-7). C19b states the last sentence of the property: c19b_ecu / c19b_ext / c19b_storage / c19b_message - the ECU, application, context and storage-header ids of every message dlt_message returns are zstring 4 of the 4 bytes at their place in the input (c19b_field_value: the longest valid-UTF-8 prefix of the bytes before the first NUL); the harness oracle ids_obey_field_rule checks the same on the implementation.",
    note="Model covers parse.rs:323-343 and nom 7.1.3 take_while_m_n/take (streaming). core::str::from_utf8 is modelled by Utf8.valid_up_to and checked against the real one exhaustively over a boundary alphabet.",
    technique="Coq proof by induction over byte lists + exhaustive/random correspondence check"),
  "C10": dict(
-   text="c10_tally (collector = independent tally by counting, keys unique), c10_total, c10_merge, associativity/commutativity/neutral element up to lookup-equivalence, c10_perm and c10_split_any (any split, any order, any grouping) proved for all streams of statistics; tied to /repo by scanning generated streams through the real reader and collector, merging the parts in four shapes.",
+   text="c10_tally (collector = independent tally by counting, keys unique), c10_total, c10_merge, associativity/commutativity/neutral element up to lookup-equivalence, c10_perm and c10_split_any (any split, any order, any grouping) proved for all streams of statistics; tied to /repo by scanning generated streams through the real reader and collector, merging the parts in four shapes. C10b adds the scan loop itself: a model of collect_statistics over the blocking-reader model (Model/Scan.v) with c10b_visits / c10b_visits_cap (for EVERY schedule of read() results and capacity, scanning the concatenation of well-formed messages visits each message exactly once, in order, with its decoded storage/standard/extended headers, payload, level and verbosity), c10b_collect / c10b_collect_tally (the standard collector fed by the scan = the independent tally), c10b_scan_spec (for every byte stream the scan equals cutting at the declared lengths, independent of the schedule), c10b_end (it ends with Ok or an error, never a panic); op 33 runs the scan model against the real collect_statistics on arbitrary streams incl. error paths.",
    note="The visit sequence (each message once, decoded headers) is compared and checked by the oracle on every generated stream; the theorem-level statement about the scan loop lives with the reader model (C07). usize counters are unbounded N; FxHashMap order is abstracted by the equivalence.",
    technique="Coq proof (induction over operation lists, association-list algebra) + correspondence check"),
 }
